@@ -38,7 +38,7 @@ import dist_C09 as D
 import explore_C09 as X
 import trace_C09 as T
 
-VARIANTS = ["plain", "soft", "meta", "blank", "edgelike", "auto", "reserved"]
+VARIANTS = ["plain", "soft", "meta", "blank", "edgelike", "auto", "reserved", "odd", "leadquote"]
 REQUIRED_ACTS = {
     "Make", "NewickRT", "NewickNamesRT", "NewickDefaultRT", "DndRT", "JsonRT", "RichDictRT", "Copy", "DeepCopy",
     "CopyModule", "Sorted", "SortedRev", "RootedAt", "RootedWithTip", "Unrooted", "SubTree", "RootAtMidpoint",
@@ -200,7 +200,7 @@ def check(run: Run):
     run.cov["rule"] = (
         "TreeOps: every transition (abstract tree, call) of the closed transformation graph over all plane tree shapes "
         "within the tier's tip bound (plus, thorough, a seeded sample of 6-tip shapes with two-call histories), each reached "
-        "on real objects by replaying its history, x 7 name classes (leading/trailing blanks and the tip name 'edge' on the round-trip calls only; parser-named and generated-looking internal names on the round-trip, midpoint, rooted_at and rooted_with_tip calls); TreeDist: every ordered pair of all topologies on the "
+        "on real objects by replaying its history, x 9 name classes (leading/trailing blanks, unusual names (adjacent quotes, digits only, #|*?{} long dotted, non-ascii), a leading quote, and the tip name 'edge' on the round-trip calls only; parser-named and generated-looking internal names on the round-trip, midpoint, rooted_at and rooted_with_tip calls); TreeDist: every ordered pair of all topologies on the "
         "tier's tip set (plus a seeded sample one tip larger), x 2 child orders x all method aliases x both argument orders. "
         "TreeDistHist: every transition of the closed graph (tree A, tree B, measured?) x {measure, copy, deepcopy, prune, "
         "bifurcating, multifurcating(3), rename on a copy / in place} for all A and the tier's sample of B, each followed by a "
